@@ -31,16 +31,33 @@ def analyse_op(ctx, F, rid, m0, m, words, cells, opname=""):
         ctx.bad(rid, key + "one-take", "%s: expected one take from a queue word, found %d" % (opname, len(takes)), m0.span); return None
     tbb, tt, take_fn, take_word = takes[0]
 
-    def taken_value(e):
-        """is e the payload of the successful take: (take as Some).0 ?"""
+    PURE = re.compile(r"^core::num::nonzero::NonZero::<\w+>::get$|^<\w+ as core::convert::From<.*>>::from$|^<\w+ as core::convert::Into<.*>>::into$|"
+                      r"^core::num::<impl \w+>::(get|into)$")
+
+    def taken_value(e, depth=0):
+        """is e the index the successful take handed out — `(take as Some).0`, possibly unwrapped from a private newtype (fields, NonZero::get,
+        lossless conversions), with no arithmetic on the way?"""
         e = uncast(e)
+        if depth > 8:
+            return False
+        if e[0] in ("ref", "deref"):
+            return taken_value(e[1], depth + 1)
+        if e[0] == "call" and e[1] != tbb:
+            t_ = m.term(e[1])
+            cal = F.inst[t_["f"]].name if t_.get("f") is not None else ""
+            if PURE.match(cal) and t_["args"]:
+                a = flow(m).term_arg(e[1], 0)
+                return bool(a) and all(taken_value(x, depth + 1) for x in a)
+            return False
         if e[0] != "field":
             return False
         b = uncast(e[1])
-        if b[0] != "downcast" or b[2] != "Some":
-            return False
-        c = uncast(b[1])
-        return c[0] == "call" and c[1] == tbb
+        while b[0] in ("ref", "deref"):
+            b = uncast(b[1])
+        if b[0] == "downcast" and b[2] == "Some":
+            c = uncast(b[1])
+            return c[0] == "call" and c[1] == tbb
+        return taken_value(b, depth + 1)        # a field of the wrapper the take returned
 
     def success_fact(facts):
         for (ce, inf, sb) in facts:
@@ -55,7 +72,9 @@ def analyse_op(ctx, F, rid, m0, m, words, cells, opname=""):
     on_some = success_fact(facts_at(m, abb))
     ctx.check(from_take and on_some, rid, key + "index-from-successful-take", "%s: the cell index derives from a successful take from `%s`" % (opname, take_word), at["sp"],
               {"index": show(idx), "derives_from_take": from_take, "on_success_branch": on_some})
-    atoms = {x for x in deps(m, [idx], follow=lambda dd: False) if x[0] in ("call", "param")}
+    CONV = ("core::num::nonzero::NonZero::<T>::get", "core::convert::From::from", "core::convert::Into::into")
+    atoms = {x for x in deps(m, [idx], follow=lambda dd: dd in CONV) if x[0] in ("call", "param")}
+    atoms = {x for x in atoms if not (x[0] == "call" and (m.term(x[1]).get("def") or "") in CONV)}
     only_v = atoms <= {("call", tbb)}
     ctx.check(only_v, rid, key + "cell-index-only-from-take", "%s: the cell index depends on the taken index and constants only" % opname, at["sp"], sorted(map(str, atoms)))
     gives = [(bb, t, c, w) for (bb, t, c, w) in wc if is_give(t)]
